@@ -1,59 +1,53 @@
-(* Dl/Refuted.v — witnesses: histories in the known classes on which the faithful model violates C18.
-   Proofs by vm_compute with the Gallina SHA-256. *)
+(* Dl/Refuted.v — documentation of the PRE-FIX behaviour: on the operations as they were before the
+   repairs (Dl/PreFix.v) the four witness histories violate C18; on the repaired mirror (Dl/Blob.v) the same
+   calls are rejected with an error and leave the blob unchanged.  Proofs by vm_compute (Gallina SHA-256). *)
 From ChiaV.Base Require Import Bytes Sha256.
-From ChiaV.Dl Require Import Format Map Tree Blob Abs History Spec.
+From ChiaV.Dl Require Import Format Map Tree Blob Abs History Spec PreFix.
 Open Scope N_scope.
 
 Definition hh (n : N) : bytes := repeat_byte 32 (n2b n).
 
-(* F-C18-1: batch_insert with a duplicate key beyond the two items it inserts one by one *)
-Definition w_batch_dup : list op :=
-  [OBatch [(1, 1, hh 1); (2, 2, hh 2); (3, 3, hh 3); (4, 4, hh 4); (3, 9, hh 9)]].
-(* F-C18-2: upsert with the hash of another leaf *)
-Definition w_upsert_other : list op :=
-  [OInsert 1 1 (hh 1) RAuto; OInsert 2 2 (hh 2) RAuto; OInsert 3 3 (hh 3) RAuto; OUpsert 1 5 (hh 2)].
-(* F-C18-3: a failing batch_insert is not atomic (duplicate among the two items inserted one by one) *)
-Definition w_batch_partial : op := OBatch [(1, 1, hh 1); (1, 2, hh 2)].
-(* F-C18-4: insert at a stale (freed) leaf index *)
-Definition w_stale_index : list op :=
-  [OInsert 1 1 (hh 1) RAuto; OInsert 2 2 (hh 2) RAuto; ODelete 2; OInsert 3 3 (hh 3) (RIndex 2 SLeft)].
+Definition w_batch_dup : list item := [(1, 1, hh 1); (2, 2, hh 2); (3, 3, hh 3); (4, 4, hh 4); (3, 9, hh 9)].
+Definition w_batch_partial : list item := [(1, 1, hh 1); (1, 2, hh 2)].
+Definition w_three : list op := [OInsert 1 1 (hh 1) RAuto; OInsert 2 2 (hh 2) RAuto; OInsert 3 3 (hh 3) RAuto].
+Definition w_two_minus_one : list op := [OInsert 1 1 (hh 1) RAuto; OInsert 2 2 (hh 2) RAuto; ODelete 2].
 
-Lemma batch_duplicate_refuted :
-  exists items, known_top [] (TBatch items) = true /\
-    let '(x, s) := step2 sha256 (OBatch items) empty_blob in
-    is_ok x = true /\ check_integrity sha256 s <> Ok tt.
+(* former F-C18-1 *)
+Lemma prefix_batch_duplicate_refuted :
+  (let '(x, s) := batch_insert_pre sha256 w_batch_dup empty_blob in
+   is_ok x = true /\ check_integrity sha256 s <> Ok tt) /\
+  exists e, batch_insert sha256 w_batch_dup empty_blob = (Err e, empty_blob).
+Proof. split; [vm_compute; split; [reflexivity|discriminate]|eexists; vm_compute; reflexivity]. Qed.
+
+(* former F-C18-2 *)
+Lemma prefix_upsert_other_hash_refuted :
+  let s3 := run2 sha256 w_three empty_blob in
+  check_integrity sha256 s3 = Ok tt /\
+  (let '(x, s) := upsert_pre sha256 1 5 (hh 2) s3 in
+   is_ok x = true /\ check_integrity sha256 s <> Ok tt /\ is_ok (reload (bytes_of_blocks (blocks s))) = false) /\
+  exists e, upsert sha256 1 5 (hh 2) s3 = (Err e, s3).
 Proof.
-  exists [(1, 1, hh 1); (2, 2, hh 2); (3, 3, hh 3); (4, 4, hh 4); (3, 9, hh 9)].
-  split; [vm_compute; reflexivity|]. vm_compute. split; [reflexivity|discriminate].
+  cbv zeta. split; [vm_compute; reflexivity|]. split.
+  - vm_compute. repeat split; try reflexivity; discriminate.
+  - eexists. vm_compute. reflexivity.
 Qed.
 
-Lemma upsert_other_hash_refuted :
-  exists ops, known_hist2 sha256 ops empty_blob [] = true /\
-    let s3 := run2 sha256 (removelast ops) empty_blob in
-    let '(x, s) := step2 sha256 (last ops OHash) s3 in
-    check_integrity sha256 s3 = Ok tt /\ is_ok x = true /\
-    check_integrity sha256 s <> Ok tt /\ is_ok (reload (bytes_of_blocks (blocks s))) = false.
-Proof.
-  exists w_upsert_other. split; [vm_compute; reflexivity|].
-  vm_compute. repeat split; try reflexivity; discriminate.
-Qed.
+(* former F-C18-3 *)
+Lemma prefix_batch_not_atomic_refuted :
+  (let '(x, s) := batch_insert_pre sha256 w_batch_partial empty_blob in
+   is_ok x = false /\ blocks s <> blocks empty_blob) /\
+  exists e, batch_insert sha256 w_batch_partial empty_blob = (Err e, empty_blob).
+Proof. split; [vm_compute; split; [reflexivity|discriminate]|eexists; vm_compute; reflexivity]. Qed.
 
-Lemma batch_not_atomic_refuted :
-  exists o, known_top [] (match op_to_top empty_blob o with Some t => t | None => THash end) = true /\
-    let '(x, s) := step2 sha256 o empty_blob in
-    is_ok x = false /\ blocks s <> blocks empty_blob.
+(* former F-C18-4 *)
+Lemma prefix_stale_index_refuted :
+  let s3 := run2 sha256 w_two_minus_one empty_blob in
+  get_keys_values s3 = Ok [(1, 1)] /\
+  (let '(x, s) := insert_pre sha256 3 3 (hh 3) (LLeaf 2 SLeft) s3 in
+   is_ok x = true /\ get_keys_values s = Ok [(2, 2); (3, 3)]) /\
+  exists e, insert sha256 3 3 (hh 3) (LLeaf 2 SLeft) s3 = (Err e, s3).
 Proof.
-  exists w_batch_partial. split; [vm_compute; reflexivity|].
-  vm_compute. split; [reflexivity|discriminate].
-Qed.
-
-Lemma stale_index_refuted :
-  exists ops, known_hist2 sha256 ops empty_blob [] = true /\
-    let s3 := run2 sha256 (removelast ops) empty_blob in
-    let '(x, s) := step2 sha256 (last ops OHash) s3 in
-    get_keys_values s3 = Ok [(1, 1)] /\ is_ok x = true /\
-    get_keys_values s = Ok [(2, 2); (3, 3)].
-Proof.
-  exists w_stale_index. split; [vm_compute; reflexivity|].
-  vm_compute. repeat split; reflexivity.
+  cbv zeta. split; [vm_compute; reflexivity|]. split.
+  - vm_compute. split; reflexivity.
+  - eexists. vm_compute. reflexivity.
 Qed.
